@@ -30,6 +30,7 @@ Tasks == 1..NT
 SubId(t) == 100 + t      \* the AgainTask running t's sub-function
 STId(t)  == 200 + t      \* a ScheduleTask waking t
 ST2Id(t) == 300 + t      \* a second, concurrent ScheduleTask waking t
+Sub2Id(t) == 400 + t     \* the AgainTask of a sub-function called by t's sub-function (nested call)
 TimerId  == 50           \* the Timer task
 NoTO     == 999          \* "no timeout"
 CycleMax == 2            \* CYCLE_MAXIMUM
@@ -61,6 +62,7 @@ view == <<svars, last>>
 viewE == svars
 
 Ids == Tasks \cup {SubId(t) : t \in Tasks} \cup {STId(t) : t \in Tasks} \cup {ST2Id(t) : t \in Tasks}
+         \cup {Sub2Id(t) : t \in Tasks}
          \cup {TimerId, STId(TimerId)}
 
 InReady(x) == x \in Range(ready)
@@ -238,7 +240,14 @@ SubStep(t) ==
       id == SubId(t)
       ran == <<<<id, j, res[id]>>>> IN
   /\ UNCHANGED <<prog, pc, alive, now, fdReady, hasQuit, owner, waiting, timer, setup, hub, sendscr>>
-  /\ IF j <= Len(o.sub) THEN
+  /\ IF j <= Len(o.sub) /\ o.sub[j].op = "Call2" THEN
+       \* the sub-function calls a sub-function of its own: that one runs next, this one blocks
+       /\ subpc' = [subpc EXCEPT ![t] = j + 1]
+       /\ ready' = <<Sub2Id(t)>> \o Tail(ready)
+       /\ res' = [res EXCEPT ![id] = "none", ![Sub2Id(t)] = "none"]
+       /\ Sig(TRUE, FALSE)
+       /\ UNCHANGED incoming
+     ELSE IF j <= Len(o.sub) THEN
        /\ subpc' = [subpc EXCEPT ![t] = j + 1]
        /\ ready' = Tail(ready)
        /\ incoming' = Register(id, now + o.sub[j].d, "-")
@@ -252,6 +261,19 @@ SubStep(t) ==
        /\ Sig(TRUE, FALSE)
        /\ UNCHANGED incoming
   /\ Log("Cycle", [t |-> id], ran)
+
+\* Cycle, AgainTask of the nested sub-function (no blocking operations of its own): its result or exception
+\* reaches exactly its caller, t's sub-function, which runs next; t itself stays blocked
+Sub2Step(t) ==
+  LET o == prog[t][pc[t] - 1]
+      so == o.sub[subpc[t] - 1]     \* the Call2 op that started it
+      id2 == Sub2Id(t) IN
+  /\ UNCHANGED <<prog, pc, alive, subpc, now, fdReady, hasQuit, owner, waiting, timer, setup, hub, sendscr, incoming>>
+  /\ ready' = <<SubId(t)>> \o Tail(ready)
+  /\ res' = [res EXCEPT ![SubId(t)] = CASE so.v = "end" -> "none" [] so.v = "ret" -> "ret" [] so.v = "throw" -> "exc",
+                        ![id2] = "none"]
+  /\ Sig(TRUE, FALSE)
+  /\ Log("Cycle", [t |-> id2], <<<<id2, 1, res[id2]>>>>)
 
 \* Cycle, ScheduleTask: queue x as the next task unless it is already queued
 STStep(x) ==
@@ -302,6 +324,7 @@ Cycle ==
        IF x \in Tasks /\ x \notin alive THEN DropDead(x)
        ELSE IF x \in Tasks THEN UserStep(x)
        ELSE IF x = TimerId THEN TimerStep
+       ELSE IF x >= 400 THEN Sub2Step(x - 400)
        ELSE IF x >= 300 THEN STStep(x - 300)
        ELSE IF x >= 200 THEN STStep(x - 200)
        ELSE SubStep(x - 100)
@@ -465,6 +488,11 @@ Exclusive == \A x \in Tasks \cup {TimerId} \cup {SubId(t) : t \in Tasks} :
 DeadGone == \A t \in Tasks : (setup /\ t \notin alive) => ~InHub(t) /\ ~InIncoming(t) /\ ~Waits(t)
 \* the caller of a sub-task does not run while the sub-task is active
 CallerBlocked == \A t \in Tasks : subpc[t] # 0 => ~InReady(t) /\ ~InHub(t)
+
+\* ... and neither the caller nor its sub-function runs while a nested sub-function is active
+NestedBlocked == \A t \in Tasks : InReady(Sub2Id(t)) =>
+                   /\ ~InReady(SubId(t)) /\ ~InHub(SubId(t)) /\ ~InIncoming(SubId(t))
+                   /\ ~InReady(t) /\ ~InHub(t) /\ subpc[t] # 0
 
 \* steps run in program order, one resume per step: every logged step of a user task is its pc
 InOrder == [][\A i \in 1..Len(last'.exp.ran) :
